@@ -183,3 +183,19 @@ Theorem C18_translated_get_and_pop_keys : forall dct keys res1 dct1,
   (forall k, ~ In k keys -> d_find String.eqb res1 k = None /\ d_find String.eqb dct1 k = d_find String.eqb dct k).
 Proof. exact gen_get_and_pop_keys_spec. Qed.
 Print Assumptions C18_translated_get_and_pop_keys.
+
+(* ---- the code in front of the dispatch in solve() and symeig() as translated from /repo on this run (Gen/PyDispatch*.v):
+   default names and lower-casing are those of dispatch_solve / dispatch_symeig above ---- *)
+From XV Require Import Proofs.PyDispatchProofs.
+From XV Require Gen.PyDispatch Gen.PyDispatchEig.
+
+Theorem C18_translated_solve_prelude_is_model : forall ad md (n : nat) ah mh m,
+  PyDispatch.solve_method_prelude ad md (Z.of_nat n) ah mh (meth_obj m) =
+  Ok (meth_obj (lower_meth (with_default (solve_default ad md n (ah && mh)) m))).
+Proof. exact solve_method_prelude_refines. Qed.
+Print Assumptions C18_translated_solve_prelude_is_model.
+
+Theorem C18_translated_symeig_prelude_is_model : forall ad md n ah mh m,
+  PyDispatchEig.symeig_method_prelude ad md n ah mh (meth_obj m) = Ok (meth_obj (lower_meth (with_default "exacteig" m))).
+Proof. exact symeig_method_prelude_refines. Qed.
+Print Assumptions C18_translated_symeig_prelude_is_model.
